@@ -185,6 +185,11 @@ def build_inputs(tier):
         if r.random() < 0.12 and s.endswith("\n") and body.endswith("\n"):
             # the macro ends the input and the input has no final newline
             cases.append(("with", (s[:-1], ctx, body[:-1], "", r.choice(BEFORE))))
+    # the same block bodies in a CRLF source: the captured text keeps the source's own line ends
+    for _ in range(120 * N):
+        s, ctx, body = xonshgen.gen_with_macro(r)
+        if "\r" not in s and "\x0c" not in s and "\x85" not in s and "\u2028" not in s:
+            cases.append(("with", (s.replace("\n", "\r\n"), ctx, body.replace("\n", "\r\n"), r.choice(["", "x = 1\r\n"]), "")))
     for _ in range(400 * N):
         x, cmd, rest, m = xonshgen.gen_proc_macro(r)
         pre, suf = r.choice([("", "\n"), ("x = ", "\n"), ("print(", ")\ny = 2\n"), ("", " and q\n"), ("", "\ny = f(1, 2)\n"), ("x = ", " + f(1, 2)\n"),
@@ -202,6 +207,12 @@ def classify(kind, o):
         return "KF-C07-continuation-in-call-macro"
     if kind == "call" and o.get("kind") == "rejected" and any(ln.lstrip().startswith("match!(") for ln in src.split("\n")):
         return "KF-C07-macro-named-match"
+    if kind == "with" and o.get("kind") == "body-not-verbatim" and "\r\n" in src and re.search(r"\n[ \t]*\r\n", src):
+        import textwrap
+
+        # the block is passed undedented: exactly what a margin-less textwrap.dedent of the CRLF text gives
+        if (o.get("got") or "") and textwrap.dedent(o["got"].replace("\r\n", "\n")).replace("\n", "\r\n") == o.get("want"):
+            return "KF-C07-crlf-blank-line-in-block"
     if kind == "proc" and o.get("kind") in ("rejected", "rest-not-verbatim", "macro-count") and o.get("proc_rest_class"):
         return "KF-C07-proc-macro-token-kinds"
     return None
